@@ -203,10 +203,19 @@ deriving Repr
 
 inductive Ans
   | ok | busy | badOp
+  | done        -- del-begin: deleteSeriesRange returned before its first step (nothing overlaps)
   | pts (l : List (TS × Val))
 deriving Repr, DecidableEq
 
 def nKeys : Nat := 4
+
+/-- file-level time range test of Engine.deleteSeriesRange -/
+def CFile.overlapsTime (f : CFile) (lo hi : TS) : Bool :=
+  f.pts.any (fun e => decide (e.2.1 ≤ hi)) && f.pts.any (fun e => decide (e.2.1 ≥ lo))
+
+/-- deleteSeriesRange returns at once when no file's time range overlaps and the hot cache is empty -/
+def St.deleteIsNoop (s : St) (lo hi : TS) : Bool :=
+  !(s.files.any (fun f => f.overlapsTime lo hi)) && s.cache.isEmpty
 
 def delFilesAll (s : St) (k : Key) (lo hi : TS) : St :=
   { s with files := s.files.map (fun f => { f with tombs := { key := k, lo := lo, hi := hi } :: f.tombs }) }
@@ -237,6 +246,7 @@ def sysStep (y : Sys) : Op → Sys × Ans
   | .delBegin k lo hi =>
     if k ≥ nKeys then (y, .badOp) else
     if y.st.phase != .idle || y.compacting.isSome || y.deleting.isSome then (y, .busy)
+    else if y.st.deleteIsNoop lo hi then (y, .done)
     else ({ y with st := delFilesAll y.st k lo hi, deleting := some (k, lo, hi) }, .ok)
   | .delEnd =>
     match y.deleting with
